@@ -32,3 +32,8 @@ claim('C02', 'scripted-comparison evaluation of the Cython kernels (Cython parse
       'Decides that the code is the minimum over exactly the 3^k lattice-image candidates of the periodic directions (all 8 settings, both kernels, judged from the .pyx source, not the compiled module), '
       'that the scalar distance is the square root of the same minimum, that broadcasting is one-to-many only, and that displacement()/System.dvect/dmag pair box and periodicity from the right system. '
       'The nearest-image theorem for that minimum is mathematics about the candidate set, not decided here.', 'DESIGN.md §6 C02')
+
+claim('C03', 'reaching definitions, structural/affine rules on the Cython source of nlist (lowered through Cython\'s parser); fold-minimum proof of the distance kernel; writer/reader agreement',
+      'Decides necessary structural conditions from the .pyx source (not the compiled module): swept bins = populated bins, 13-bin half stencil with own-coordinate offsets and six-face skip, '
+      'bin size/padding >= cutoff, six own-coordinate ghost bounds, strict squared-cutoff membership on the C02 kernel, sorted symmetric duplicate-free insertion, growth invariants, NeighborList layout and file agreement. '
+      'The pair set of a concrete configuration is not decided.', 'DESIGN.md §6 C03')
